@@ -47,6 +47,10 @@ pub enum Step {
     OtherDoc(u8, u8, u8, u8),
     /// import the write (true) or the read (false) capability of this document while it is open
     ImportCapability(bool),
+    /// a slow subscriber (channel of capacity 1, not reading) and a caller that gives up: the first local insert fills the
+    /// slow channel, the second one blocks the actor on it and its caller drops the request after 10 ms; then the slow
+    /// subscriber reads. Both entries were applied, so every subscriber - the slow one included - sees both events
+    CancelledInsert { a: u8, k: u8, c: u8 },
 }
 
 #[derive(Serialize, Deserialize, Clone, Debug)]
@@ -146,6 +150,7 @@ impl Prop for C12 {
             1 => (any::<bool>(), vec((any::<bool>(), 0u8..7), 0..=3)).prop_map(|(n, f)| Step::SetPolicy(n, f)),
             3 => (0u8..4, 0u8..3, 0u8..5, 0u8..4).prop_map(|(what, a, k, c)| Step::OtherDoc(what, a, k, c)),
             2 => any::<bool>().prop_map(Step::ImportCapability),
+            1 => (0u8..3, 0u8..7, 1u8..4).prop_map(|(a, k, c)| Step::CancelledInsert { a, k, c }),
         ];
         (vec(step, 1..=max), prop::bool::weighted(0.3)).prop_map(|(steps, start_readonly)| Case { steps, start_readonly }).boxed()
     }
@@ -156,7 +161,12 @@ impl Prop for C12 {
         let r = run(ctx, c, &mut o);
         verif::set_clock(None);
         if let Err(e) = r {
-            o.fail("C12/harness-error", e);
+            if e.starts_with("harness-timeout") {
+                o.failure = None;
+                o.fail("C12/harness-timeout", e);
+            } else {
+                o.fail("C12/harness-error", e);
+            }
         }
         o
     }
@@ -436,6 +446,64 @@ fn run(ctx: &mut Ctx, c: &Case, o: &mut Outcome) -> R<()> {
                     }
                     let _ = act::drain(&orx);
                     o.class("other-document-activity");
+                }
+                Step::CancelledInsert { a, k, c: cc } => {
+                    if !writable {
+                        continue;
+                    }
+                    let (stx, srx) = async_channel::bounded::<Event>(1);
+                    es(h.subscribe(ns, stx.clone()).await)?;
+                    let mut slow_expected: Vec<SignedEntry> = vec![];
+                    // 1: fills the slow channel
+                    clock += 1;
+                    verif::set_clock(Some(clock));
+                    let e1 = sign(&nssec, &ESpec { a: *a, k: key(*k), t: clock, c: *cc });
+                    offered.push(e1.clone());
+                    let _ = h.insert_local(ns, author(*a).id(), key(*k).into(), e1.content_hash(), e1.content_len()).await;
+                    if model.apply(&e1).is_some() {
+                        expected.push(Ev { local: true, entry: e1.clone(), from: [0; 32], status: None, download: false });
+                        slow_expected.push(e1);
+                    }
+                    // 2: the actor blocks on the slow subscriber, the caller gives up
+                    clock += 1;
+                    verif::set_clock(Some(clock));
+                    let c2 = 1 + (*cc % 3);
+                    let e2 = sign(&nssec, &ESpec { a: *a, k: key(*k), t: clock, c: c2 });
+                    offered.push(e2.clone());
+                    let gave_up = tokio::time::timeout(std::time::Duration::from_millis(10), h.insert_local(ns, author(*a).id(), key(*k).into(), e2.content_hash(), e2.content_len())).await.is_err();
+                    if model.apply(&e2).is_some() {
+                        expected.push(Ev { local: true, entry: e2.clone(), from: [0; 32], status: None, download: false });
+                        slow_expected.push(e2);
+                    }
+                    if gave_up {
+                        o.class("caller-gave-up-while-the-actor-waited-for-a-slow-subscriber");
+                    }
+                    // the slow subscriber starts reading; then one round trip makes sure the actor is done
+                    let mut slow_seen: Vec<SignedEntry> = vec![];
+                    for _ in 0..slow_expected.len() {
+                        match tokio::time::timeout(std::time::Duration::from_secs(5), srx.recv()).await {
+                            Ok(Ok(Event::LocalInsert { entry, .. })) => slow_seen.push(entry),
+                            Ok(Ok(_)) => {}
+                            _ => break,
+                        }
+                    }
+                    match tokio::time::timeout(std::time::Duration::from_secs(20), h.get_state(ns)).await {
+                        Ok(r) => {
+                            let _ = es(r)?;
+                        }
+                        Err(_) => return Err("harness-timeout: the store actor did not answer within 20 s after the slow subscriber caught up".into()),
+                    }
+                    while let Ok(Event::LocalInsert { entry, .. }) = srx.try_recv() {
+                        slow_seen.push(entry);
+                    }
+                    if slow_seen != slow_expected {
+                        o.fail(
+                            "C12/slow-subscriber-after-cancelled-request",
+                            format!("{what}: the slow subscriber saw {} but {} were applied (the second insert's caller gave up: {gave_up})", describe_all(&slow_seen), describe_all(&slow_expected)),
+                        );
+                        break;
+                    }
+                    let _ = h.unsubscribe(ns, stx).await;
                 }
                 Step::ImportCapability(write) => {
                     let cap = if *write { iroh_docs::Capability::Write(nssec.clone()) } else { iroh_docs::Capability::Read(ns) };
